@@ -450,6 +450,11 @@ func runL2C(seed int64, n int, dir string) error {
 			emit("sqlc", in, out)
 		}
 	}
+	for k := 0; k < 2; k++ {
+		id++
+		fmt.Fprintf(cw, "%d probe rejected-at-storage-leaves-no-table\n", id)
+		fmt.Fprintf(iw, "%d %s\n", id, probeRejectedAtStorage())
+	}
 	sf, _ := os.Create(dir + "/stats.txt")
 	defer sf.Close()
 	keys := make([]string, 0, len(stats))
